@@ -390,6 +390,255 @@ def gen_gamma_mesh(rng):
             "mesh": {"ids": ids, "n": n, "indep": rng.random() < 0.6, "frame": rng.choice([0, 0, 1, 2])}}
 
 
+# ------------------------------------------------------------------ sessions: state that goes stale / argument integrity
+def fingerprint(o):
+    """Bit-for-bit identity of what a caller owns: values (bytes), index, names, dtypes, columns."""
+    if isinstance(o, pd.DataFrame):
+        return ("D", [repr(c) for c in o.columns], [str(t) for t in o.dtypes], fingerprint(o.index), [fingerprint(o[c]) for c in o.columns])
+    if isinstance(o, pd.Series):
+        vals = tuple(fingerprint(v) for v in o.values) if o.dtype == object else np.ascontiguousarray(o.values).tobytes()
+        return ("S", repr(o.name), str(o.dtype), fingerprint(o.index), vals)
+    if isinstance(o, pd.Index):
+        return ("I", type(o).__name__, tuple(repr(n) for n in o.names), tuple(repr(v) for v in o.tolist()))
+    if isinstance(o, np.ndarray):
+        return ("A", o.dtype.str, o.shape, np.ascontiguousarray(o).tobytes())
+    if isinstance(o, (list, tuple)):
+        return (type(o).__name__, tuple(fingerprint(v) for v in o))
+    return repr(o)
+
+
+def _val(v):
+    if isinstance(v, (pd.Series, pd.DataFrame, np.ndarray, list, tuple)):
+        return snap(v)
+    if isinstance(v, (bool, np.bool_)):
+        return "b%d" % bool(v)
+    if isinstance(v, (int, float, np.integer, np.floating)):
+        return f2h(float(v))
+    return repr(v)
+
+
+def snap(o):
+    """What a later call with the same object depends on: VALUES and INDEX (labels, order) - not the name of a Series, not
+    dtypes, not columns / keys somebody adds (those are counted, see `changed`)."""
+    if isinstance(o, pd.DataFrame):
+        return ("D", fingerprint(o.index), {repr(c): tuple(_val(v) for v in o[c].values) for c in o.columns})
+    if isinstance(o, pd.Series):
+        return ("S", {repr(k): _val(v) for k, v in zip(o.index.tolist(), o.values)}, tuple(repr(k) for k in o.index.tolist()))
+    if isinstance(o, np.ndarray):
+        return ("A", o.shape, tuple(_val(v) for v in o.reshape(-1)))
+    return ("L", tuple(_val(v) for v in o))
+
+
+def changed(before, o, extra=None):
+    """None, or what changed in the caller's object relative to the snapshot `before`; columns of a frame / keys of a parameter
+    Series that were ADDED are not a change of the argument (they are reported through `extra`, a list)."""
+    now = snap(o)
+    if before[0] == "D":
+        if now[1] != before[1]:
+            return "index"
+        for c, v in before[2].items():
+            if c not in now[2]:
+                return f"column {c} removed"
+            if now[2][c] != v:
+                return f"values of column {c}"
+        if extra is not None:
+            extra.extend(c for c in now[2] if c not in before[2])
+        return None
+    if before[0] == "S":
+        keys_b = [k for k in now[2] if k in before[1]]
+        if keys_b != list(before[2]):
+            return "index (labels / order)"
+        for k, v in before[1].items():
+            if now[1][k] != v:
+                return f"value of {k}"
+        if extra is not None:
+            extra.extend(k for k in now[2] if k not in before[1])
+        return None
+    return None if now == before else "values"
+
+
+def in_child(fn):
+    """fn() evaluated in a forked child: the reference of a session must not see class- / module-level state (memos) that the
+    live objects of the session leave behind - and must not leave any for them."""
+    import os
+    import pickle
+    r, w = os.pipe()
+    pid = os.fork()
+    if pid == 0:
+        code = 0
+        try:
+            os.close(r)
+            try:
+                out = ("ok", fn())
+            except BaseException as e:      # noqa: BLE001 - reported to the parent
+                out = ("exc", f"{type(e).__name__}: {e}")
+            with os.fdopen(w, "wb") as f:
+                pickle.dump(out, f)
+        except BaseException:               # noqa: BLE001
+            code = 1
+        finally:
+            os._exit(code)
+    os.close(w)
+    with os.fdopen(r, "rb") as f:
+        data = f.read()
+    os.waitpid(pid, 0)
+    if not data:
+        raise RuntimeError("reference child process died")
+    return pickle.loads(data)
+
+
+def canon(res):
+    """a result as comparable bytes (scalars, arrays, Series alike); NaN-safe"""
+    if isinstance(res, (pd.Series, pd.DataFrame)):
+        return ("P", fingerprint(res.index), np.ascontiguousarray(np.asarray(res, dtype=float)).tobytes())
+    a = np.asarray(res)
+    if a.dtype == object:
+        return ("O", repr(res))
+    if a.dtype == bool:
+        return ("B", a.shape, a.tobytes())
+    a = np.asarray(res, dtype=float)
+    return ("F", a.shape, np.ascontiguousarray(a).tobytes())
+
+
+def as_arg(vals, how):
+    if how == "series":
+        return pd.Series([float(v) for v in vals], name="arg")
+    if how == "list":
+        return [float(v) for v in vals]
+    return np.array([float(v) for v in vals])
+
+
+def mk_curve(which, prm, state):
+    """a FRESH curve object (own parameter Series) in the logical state `state` (= current P_RAJ_D or None)"""
+    _imports()
+    if which == "pram":
+        ser = pd.Series({"P_RAM_Z": prm["PZ"], "P_RAM_D": prm["PD"], "d_1": prm["d1"], "d_2": prm["d2"]})
+        return ser, ser.woehler_P_RAM
+    ser = pd.Series({"P_RAJ_Z": prm["PZ"], "P_RAJ_D_0": prm["PD0"], "d_RAJ": prm["d"]})
+    w = ser.woehler_P_RAJ
+    if state is not None:
+        w.update_P_RAJ_D(state)
+    return ser, w
+
+
+def curve_op(which, w, op, arg, how):
+    """(canonical result, argument object handed in or None)"""
+    a = None
+    if op in ("N_a", "P_a"):
+        a = as_arg(arg, how)
+    if op == "N_s":
+        return canon(w.calc_N(float(arg))), None
+    if op == "N_a":
+        return canon(w.calc_N(a)), a
+    if op == "P_s":
+        return canon(w.calc_P_RAM(float(arg)) if which == "pram" else w.calc_P_RAJ(float(arg))), None
+    if op == "P_a":
+        return canon(w.calc_P_RAM(a) if which == "pram" else w.calc_P_RAJ(a)), a
+    if op == "limits":
+        if which == "pram":
+            return canon([w.fatigue_life_limit, w.fatigue_strength_limit, w.P_RAM_Z, w.P_RAM_D, w.d_1, w.d_2]), None
+        return canon([w.fatigue_life_limit, w.fatigue_life_limit_final, w.fatigue_strength_limit, w.fatigue_strength_limit_final,
+                      w.P_RAJ_Z, w.P_RAJ_D, w.d]), None
+    if op == "upd":
+        w.update_P_RAJ_D(float(arg))
+        return canon(w.P_RAJ_D), None
+    if op == "N_explicit":
+        return canon(w.calc_N(float(arg[0]), P_RAJ_D=float(arg[1]))), None
+    if op in ("mincopy", "deepcopy"):
+        import copy
+        c = w.get_woehler_curve_minimum_lifetime() if op == "mincopy" else copy.deepcopy(w)
+        before = canon([c.fatigue_life_limit, c.fatigue_strength_limit] + ([c.fatigue_strength_limit_final, c.P_RAJ_D] if which == "praj" else []))
+        probe = canon(c.calc_N(float(arg)))
+        if which == "praj":
+            c.update_P_RAJ_D(float(arg) * 0.37)          # the copy is the caller's: changing it must not reach the original
+        return ("copy", before, probe, c is w), None
+    raise ValueError(op)
+
+
+def gen_curve_session(rng):
+    which = rng.choice(["pram", "praj"])
+
+    def prm():
+        if which == "pram":
+            return gen_pram_params(rng)
+        c = gen_praj_curve(rng)
+        return {"d": c["d"], "PZ": c["PZ"], "PD0": c["PD0"]}
+    objs = [prm()] + ([prm()] if rng.random() < 0.6 else [])
+    if len(objs) == 2 and rng.random() < 0.5:
+        # the second object shares all parameters but one with the first (what a memo key might consist of)
+        key = rng.choice(["PZ", "PD" if which == "pram" else "PD0", "d2" if which == "pram" else "d"])
+        objs[1] = dict(objs[0], **{key: objs[0][key] * (rng.choice([2.0, 1.1]) if key == "PZ" else rng.choice([0.5, 0.9]))})   # stays admissible
+    ops = []
+    for _ in range(rng.randint(4, 12)):
+        i = rng.randrange(len(objs))
+        o = objs[i]
+        lo = (o["PD"] if which == "pram" else o["PD0"]) * 0.3
+        names = ["N_s", "N_a", "P_s", "P_a", "limits", "deepcopy"] + (["upd", "upd", "N_explicit", "mincopy"] if which == "praj" else [])
+        op = rng.choice(names)
+        if op in ("N_s", "deepcopy", "mincopy"):
+            arg = logu(rng, lo, o["PZ"] * 3)
+        elif op == "N_a":
+            arg = [logu(rng, lo, o["PZ"] * 3) for _ in range(rng.randint(1, 5))] + [o["PZ"]]
+        elif op == "P_s":
+            arg = logu(rng, 0.1, 1e9)
+        elif op == "P_a":
+            arg = [logu(rng, 0.1, 1e9) for _ in range(rng.randint(1, 5))] + [1e3]
+        elif op == "upd":
+            arg = o["PD0"] * rng.uniform(0.2, 1.0)
+        elif op == "N_explicit":
+            arg = [logu(rng, lo, o["PZ"] * 3), o["PD0"] * rng.uniform(0.2, 1.2)]
+        else:
+            arg = None
+        ops.append([i, op, arg, rng.choice(["ndarray", "series"])])
+    return {"kind": "session", "what": "curve", "which": which, "objs": objs, "create_reversed": rng.random() < 0.5, "ops": ops}
+
+
+def gen_calc_session(rng):
+    c = gen_life(rng)
+    while c.get("exact") and rng.random() < 0.5:
+        c = gen_life(rng)
+    qs = ["ncyc", "nseq", "inf", "pmax", "coll"]
+    ops = []
+    nmax_on = set()
+    cur = 0
+    for _ in range(rng.randint(4, 10)):
+        r = rng.random()
+        if r < 0.2:
+            cur = 1 - cur               # the other calculator (built from the SAME frame and curve object)
+            ops.append(["switch", cur])
+        elif r < 0.45:
+            ops.append(["nmax", rng.choice([1e-5, 7.2e-5, 1e-3, 2.3e-1, 0.5, logu(rng, 1e-6, 0.5)]), rng.random() < 0.3])
+            nmax_on.add(cur)
+        else:
+            # (lifetime numbers of a calculator AFTER its own N_max_bearable are a reported witness on the unchanged tree
+            #  - `nmax-bearable-changes-own-lifetime` - and are not asked here; everything else is)
+            pool = [q for q in qs if not (cur in nmax_on and q in ("ncyc", "nseq", "coll"))]
+            ops.append(["ask", rng.choice(pool)])
+    return {"kind": "session", "what": "calc_pram", "life": c, "group": rng.choice(GROUPS), "ops": ops}
+
+
+def gen_praj_calc_session(rng):
+    return {"kind": "session", "what": "calc_praj", "seed": rng.randrange(10 ** 9), "group": rng.choice(GROUPS), "nh": rng.randint(2, 6),
+            "nbins": rng.choice([5, 10, 50]), "ops": [rng.choice(["ncyc", "nseq", "inf", "pmax", "switch"]) for _ in range(rng.randint(3, 8))]}
+
+
+def gen_load_session(rng):
+    loads = [rng.choice([rng.uniform(-500, 500), float(rng.randint(-300, 300))]) for _ in range(rng.randint(1, 8))]
+    if all(v == 0 for v in loads):
+        loads[0] = 1.0
+    ops = []
+    for _ in range(rng.randint(3, 10)):
+        op = rng.choice(["gamma_normal", "gamma_lognormal", "gamma_blanket", "scaled_normal", "scaled_lognormal", "scaled_blanket", "beta",
+                         "maxabs", "scaled_const"])
+        ops.append([op, rng.choice([p for p, _b in BETA_TABLE]) if op != "beta" else logu(rng, 1e-8, 0.5)])
+    return {"kind": "session", "what": "load", "loads": loads, "PL": rng.choice([2.5, 50.0]), "s": logu(rng, 1e-2, 20), "lsd": logu(rng, 1e-3, 0.3),
+            "with_flag": rng.random() < 0.4, "ops": ops}
+
+
+def gen_dp_session(rng):
+    return {"kind": "session", "what": "dp", "row": gen_pram_row(rng), "times": rng.randint(2, 3)}
+
+
 def gen_beta(rng):
     m = rng.random()
     if m < 0.5:
@@ -474,7 +723,8 @@ class C09(Prop):
             "(P_RAM, closed?, run) + curve, also 2-3 assessment points in one table (own status and own curve per point, layout of "
             "the recorder); P_A; gamma_L inputs incl. meshes (MultiIndex Series / DataFrames, arbitrary node ids, per-node or global "
             "L_max); constants of a group; literals published in the repo's own tests (guideline example 2.7.1, gamma_L, beta, "
-            "material curve values).  Correspondence: model (Float) vs real code, "
+            "material curve values); SESSIONS: sequences of calls on long-lived / shared objects (curves, calculators, load series, "
+            "parameter Series) compared call by call with fresh objects, and value / index integrity of every argument.  Correspondence: model (Float) vs real code, "
             "bit-exact for constants, P_RAM rows, table look-ups and the exact (dyadic) damage tables, relative 1e-11 where "
             "pow/log are involved.  Oracle: the property's relations on the real code (round trips, monotonicity, limits at the "
             "knees, sqrt formula with guideline constants, literal damage accumulation, erfc residual of beta, scalar return of "
@@ -501,6 +751,22 @@ class C09(Prop):
         "C09 (number of passes, early failure): for D1 < 1 <= D1 + D2 the literal accumulation of the property text gives "
         "1 + (1 - D1)/D2 passes, the code 0: open finding early-failure-zero-repetitions.  For D1 >= 1 (failure within the first "
         "pass) the property text is SILENT on which fraction of a pass is meant; the code's 0 (no complete pass) is accepted",
+        "C09 SESSIONS (state that goes stale / argument integrity; oracle only, no model): ONE WoehlerCurvePRAM / WoehlerCurvePRAJ object "
+        "(or TWO with different parameters alive at once, created in either order, calls interleaved) answers a random sequence of "
+        "calc_N / calc_P / limits / update_P_RAJ_D / calc_N(P, P_RAJ_D=...) / deepcopy / get_woehler_curve_minimum_lifetime calls "
+        "(scalars, ndarrays, Series) exactly like a FRESH object in the same logical state; DamageCalculatorPRAM / PRAJ: the same "
+        "collective + curve object used for two calculators, each asked repeatedly (lifetimes, is_life_infinite, P_max, "
+        "N_max_bearable with several P_A) = a fresh calculator on fresh inputs; load series + parameter Series reused over "
+        "gamma_L / scaled_load_sequence of the three accessors, maximum_absolute_load, compute_beta; P_RAM(collective, parameters) "
+        "called repeatedly.  Argument integrity = VALUES and INDEX (labels, order) of every array / Series / frame the caller hands "
+        "in are unchanged afterwards.  OUTSIDE the property (counted in the stats as "
+        "session_caller_object_got_additional_columns_or_keys, no failure): columns / keys ADDED to a caller's object "
+        "(DamageCalculatorPRAJ works on the caller's frame and adds `cumulative_damage`; gamma_L of the normal case stores its "
+        "default `max_load_independently_for_nodes = False` in the caller's parameter Series, which also turns its dtype into "
+        "object), names and dtypes.  NOT asked (reported witness on the unchanged tree): lifetime_n_cycles / "
+        "lifetime_n_times_load_sequence / collective of a DamageCalculatorPRAM AFTER its own N_max_bearable(P_A) - that call "
+        "overwrites the calculator's N and D columns, the same calculator then reports the reduced-curve lifetime "
+        "(7040.3 before, 882.4 after N_max_bearable(1e-3))",
         "C09: P_L outside {2.5 %, 50 %} is outside the guideline's domain: normal / log-normal silently use the 50 % formula, blanket "
         "raises; the oracle makes no claim there for normal / log-normal (the correspondence still follows the code)",
         "C09: np.searchsorted on the cumulative damages is modelled as 'first index with prefix sum >= 1' (numpy contract for a "
@@ -577,11 +843,13 @@ class C09(Prop):
         for i in range(ngrid + 1):
             yield {"kind": "beta", "PA": 10.0 ** (-9 + i * (9 + math.log10(0.5)) / ngrid)}
         counts = {"pram_curve": 120, "praj_curve": 80, "pram_row": 150, "life": 400, "life_multi": 150, "beta": 200, "gamma": 250,
-                  "gamma_mesh": 120}
+                  "gamma_mesh": 120, "s_curve": 60, "s_calc": 30, "s_praj": 8, "s_load": 40, "s_dp": 15}
         if big:
             counts = {k: v * 8 for k, v in counts.items()}
         gens = {"pram_curve": gen_pram_curve, "praj_curve": gen_praj_curve, "pram_row": gen_pram_row, "life": gen_life,
-                "life_multi": gen_life_multi, "beta": gen_beta, "gamma": gen_gamma, "gamma_mesh": gen_gamma_mesh}
+                "life_multi": gen_life_multi, "beta": gen_beta, "gamma": gen_gamma, "gamma_mesh": gen_gamma_mesh,
+                "s_curve": gen_curve_session, "s_calc": gen_calc_session, "s_praj": gen_praj_calc_session, "s_load": gen_load_session,
+                "s_dp": gen_dp_session}
         for kind, n in counts.items():
             for _ in range(n):
                 yield gens[kind](rng)
@@ -867,6 +1135,266 @@ class C09(Prop):
                 return self._oracle_beta(case)
             if k == "gamma":
                 return self._oracle_gamma(case)
+            if k == "session":
+                with np.errstate(all="ignore"):
+                    return getattr(self, "_session_" + case["what"])(case)
+        return None
+
+    # -------------------------------------------------------------- sessions (oracle only)
+    def _session_curve(self, case):
+        which = case["which"]
+        n = len(case["objs"])
+        order = list(range(n))[::-1] if case["create_reversed"] else list(range(n))
+        def refs_of(i):
+            st, out = None, {}
+            for step, (j, op, arg, how) in enumerate(case["ops"]):
+                if j != i:
+                    continue
+                if op == "upd":
+                    st = float(arg)
+                out[step] = curve_op(which, mk_curve(which, case["objs"][i], st)[1], op, arg, how)[0]
+            return out
+        refs = {}
+        for i in range(n):          # every object's reference in its own process: sees no other object, no earlier call
+            tag, val = in_child(lambda i=i: refs_of(i))
+            if tag != "ok":
+                return (f"{which} curve session: a fresh object of parameters {case['objs'][i]!r} fails on its own: {val}", "session-stale-state")
+            refs.update(val)
+        live, sers, fps, state = {}, {}, {}, {}
+        for i in order:
+            sers[i], live[i] = mk_curve(which, case["objs"][i], None)
+            fps[i] = snap(sers[i])
+            state[i] = None
+        for step, (i, op, arg, how) in enumerate(case["ops"]):
+            self._count("session_curve_op_" + op)
+            got, a = curve_op(which, live[i], op, arg, how)
+            fa = None
+            if op == "upd":
+                state[i] = float(arg)
+            want = refs[step]
+            where = f"{which} curve session, step {step} (object {i} of {n}, op {op}, arg {arg!r} as {how})"
+            if got != want:
+                return (f"{where}: the long-lived object answers differently from a fresh object in the same logical state "
+                        f"(P_RAJ_D = {state[i]!r}); earlier steps {case['ops'][:step]!r}", "session-stale-state")
+            if a is not None and changed(snap(as_arg(arg, how)), a):
+                return (f"{where}: the argument handed in was modified ({changed(snap(as_arg(arg, how)), a)})", "session-argument-modified")
+            for j in live:
+                if changed(fps[j], sers[j]):
+                    return (f"{where}: the parameter Series of curve object {j} was modified ({changed(fps[j], sers[j])})", "session-argument-modified")
+        return None
+
+    def _calc_pram_inputs(self, case):
+        c = case["life"]
+        return life_table(c), pd.Series({"P_RAM_Z": c["PZ"], "P_RAM_D": c["PD"], "d_1": c["d1"], "d_2": c["d2"]})
+
+    @staticmethod
+    def _ask_pram(calc, q):
+        if q == "ncyc":
+            return canon(calc.lifetime_n_cycles)
+        if q == "nseq":
+            return canon(calc.lifetime_n_times_load_sequence)
+        if q == "inf":
+            return canon(calc.is_life_infinite)
+        if q == "pmax":
+            return canon(calc.P_RAM_max)
+        return ("coll", fingerprint(calc.collective))
+
+    def _session_calc_pram(self, case):
+        _dp, dc, _pc, _const = _imports()
+        df, cser = self._calc_pram_inputs(case)
+        fdf, fcs = snap(df), snap(cser)
+        w = cser.woehler_P_RAM
+        ap = pd.Series({"MatGroupFKM": case["group"]})
+        fap = snap(ap)
+        def refs_all():
+            out = []
+            for op in case["ops"]:
+                if op[0] == "switch":
+                    out.append(None)
+                    continue
+                rdf, rcs = self._calc_pram_inputs(case)
+                ref = dc.DamageCalculatorPRAM(rdf, rcs.woehler_P_RAM)
+                if op[0] == "nmax":
+                    Nr, _Fr = ref.get_lifetime_functions(pd.Series({"MatGroupFKM": case["group"]}))
+                    out.append(canon(Nr(op[1], clip_gamma=op[2])))
+                else:
+                    out.append(self._ask_pram(ref, op[1]))
+            return out
+        tag, refs = in_child(refs_all)
+        if tag != "ok":
+            raise RuntimeError("reference calculators: " + refs)
+        calcs = {0: dc.DamageCalculatorPRAM(df, w)}
+        cur = 0
+        history = {0: [], 1: []}            # the N_max_bearable calls each calculator has seen
+        for step, op in enumerate(case["ops"]):
+            where = f"DamageCalculatorPRAM session, step {step} {op!r} (calculator {cur}; earlier {case['ops'][:step]!r})"
+            if op[0] == "switch":
+                cur = op[1]
+                if cur not in calcs:
+                    calcs[cur] = dc.DamageCalculatorPRAM(df, w)       # same frame, same curve object
+                continue
+            want = refs[step]
+            if op[0] == "nmax":
+                self._count("session_calc_nmax")
+                N, _F = calcs[cur].get_lifetime_functions(ap)
+                got = canon(N(op[1], clip_gamma=op[2]))
+                history[cur].append(op[1])
+            else:
+                self._count("session_calc_ask_" + op[1])
+                got = self._ask_pram(calcs[cur], op[1])
+            if got != want:
+                return (f"{where}: differs from a fresh calculator on fresh inputs (N_max_bearable calls seen by this calculator: "
+                        f"{history[cur]!r}, by the other: {history[1 - cur]!r})", "session-stale-state")
+            extra = []
+            ch = changed(fdf, df, extra) or changed(fcs, cser, extra) or changed(fap, ap, extra)
+            if ch:
+                return (f"{where}: the collective / curve parameters / assessment parameters handed in by the caller were modified: {ch}",
+                        "session-argument-modified")
+            if extra:
+                self._count("session_caller_object_got_additional_columns_or_keys")
+        return None
+
+    def _praj_inputs(self, case):
+        import random
+        _dp, _dc, _pc, const = _imports()
+        r = random.Random(case["seed"])
+        col = const.all_constants[case["group"]]
+        d, E = float(col["d_RAJ"]), float(col["E"])
+        pz, pd0, nb, nh = 300.0, 0.5, case["nbins"], case["nh"]
+        m = -1 / d
+        C = 1e-5 * (5e5) ** m * E ** (-m)
+        a0 = (0.5 ** (1 - m) - (1 - m) * C * pz ** m) ** (1 / (1 - m))
+        ls = E / 5e6 / pd0 - a0
+        pde = pd0 * (a0 + ls) / (0.5 + ls)
+        kmax = pd0 * 40.0
+        Ps = [math.exp(r.uniform(math.log(pde * 1.01), math.log(kmax))) for _ in range(nh)]
+        n1 = r.choice([0, 1, nh // 2])
+        df = pd.DataFrame({"S_min": 0.0, "P_RAJ": np.array(Ps), "D": np.array([r.uniform(0.0, 0.01) for _ in range(nh)]),
+                           "P_RAJ_D": np.array([pd0 * r.uniform(0.9, 1.0) for _ in range(nh)]),
+                           "run_index": np.array([1 if i < n1 else 2 for i in range(nh)], dtype=np.int64)},
+                          index=pd.MultiIndex.from_product([range(nh), [0]], names=["hysteresis_index", "assessment_point_index"]))
+        ap = pd.Series({"MatGroupFKM": case["group"], "P_RAJ_Z": pz, "P_RAJ_D_0": pd0, "d_RAJ": d, "n_bins": nb, "a_0": a0, "a_end": 0.5,
+                        "l_star": ls, "P_RAJ_D_e": pde, "P_RAJ_klass_max": kmax})
+        return df, ap
+
+    @staticmethod
+    def _ask_praj(calc, q):
+        if q == "ncyc":
+            return canon(calc.lifetime_n_cycles)
+        if q == "nseq":
+            return canon(calc.lifetime_n_times_load_sequence)
+        if q == "inf":
+            return canon(calc.is_life_infinite)
+        return canon(calc.P_RAJ_max)
+
+    def _session_calc_praj(self, case):
+        _dp, dc, _pc, _const = _imports()
+        df, ap = self._praj_inputs(case)
+        # (the calculator documents that it works ON the collective handed in - it adds `cumulative_damage` to it; what must
+        #  not change are the columns the caller filled in, the index and the parameter Series)
+        fdf, fap = snap(df), snap(ap)
+        def refs_all():
+            out = []
+            for q in case["ops"]:
+                if q == "switch":
+                    out.append(None)
+                    continue
+                rdf, rap = self._praj_inputs(case)
+                out.append(self._ask_praj(dc.DamageCalculatorPRAJ(rdf, rap, rap[["P_RAJ_Z", "P_RAJ_D_0", "d_RAJ"]].woehler_P_RAJ), q))
+            return out
+        tag, refs = in_child(refs_all)
+        if tag != "ok":
+            raise RuntimeError("reference calculators: " + refs)
+        curve = ap[["P_RAJ_Z", "P_RAJ_D_0", "d_RAJ"]].woehler_P_RAJ
+        calcs = {0: dc.DamageCalculatorPRAJ(df, ap, curve)}
+        cur = 0
+        for step, q in enumerate(case["ops"]):
+            where = f"DamageCalculatorPRAJ session, step {step} {q!r} (calculator {cur}; earlier {case['ops'][:step]!r})"
+            if q == "switch":
+                cur = 1 - cur
+                if cur not in calcs:
+                    calcs[cur] = dc.DamageCalculatorPRAJ(df, ap, curve)
+                continue
+            self._count("session_praj_ask_" + q)
+            if self._ask_praj(calcs[cur], q) != refs[step]:
+                return (f"{where}: differs from a fresh calculator on fresh inputs", "session-stale-state")
+            extra = []
+            ch = changed(fdf, df, extra) or changed(fap, ap, extra)
+            if ch:
+                return (f"{where}: the caller's collective or assessment parameters were modified: {ch}", "session-argument-modified")
+            if extra:
+                self._count("session_caller_object_got_additional_columns_or_keys")
+        return None
+
+    def _session_load(self, case):
+        _dp, _dc, pc, _const = _imports()
+
+        def mk():
+            ser = pd.Series([float(v) for v in case["loads"]], name="load")
+            d = {"P_A": 1e-3, "P_L": case["PL"], "s_L": case["s"], "LSD_s": case["lsd"]}
+            if case["with_flag"]:
+                d["max_load_independently_for_nodes"] = False
+            return ser, pd.Series(d)
+
+        def run(ser, par, op, pa):
+            if op == "beta":
+                return canon(pc.compute_beta(pa))
+            if op == "maxabs":
+                return canon(ser.fkm_load_sequence.maximum_absolute_load())
+            if op == "scaled_const":
+                return canon(ser.fkm_load_sequence.scaled_by_constant(1.25))
+            par["P_A"] = pa                         # the caller sets the probability, then asks
+            kind, dist = op.split("_")
+            acc = getattr(ser, {"normal": "fkm_safety_normal_from_stddev", "lognormal": "fkm_safety_lognormal_from_stddev",
+                                "blanket": "fkm_safety_blanket"}[dist])
+            return canon(acc.gamma_L(par) if kind == "gamma" else acc.scaled_load_sequence(par))
+        tag, refs = in_child(lambda: [run(*mk(), op, pa) for op, pa in case["ops"]])
+        if tag != "ok":
+            raise RuntimeError("reference load objects: " + refs)
+        ser, par = mk()
+        fser = snap(ser)
+        for step, (op, pa) in enumerate(case["ops"]):
+            self._count("session_load_" + op)
+            where = f"load-distribution session, step {step} ({op}, P_A = {pa!r}; earlier {case['ops'][:step]!r})"
+            got = run(ser, par, op, pa)
+            if got != refs[step]:
+                return (f"{where}: the long-lived load series / parameters answer differently from fresh ones", "session-stale-state")
+            if changed(fser, ser):
+                return (f"{where}: the caller's load series was modified ({changed(fser, ser)})", "session-argument-modified")
+            # the caller's parameters: values and keys as the caller left them (P_A as last set); keys ADDED by the call
+            # (gamma_L of the normal case stores its default max_load_independently_for_nodes = False) are only counted
+            extra = []
+            ch = changed(snap(pd.Series(dict(mk()[1], P_A=par["P_A"]))), par, extra)
+            if ch:
+                return (f"{where}: the caller's parameter Series was modified ({ch}): {dict(par)!r}", "session-argument-modified")
+            if extra:
+                self._count("session_caller_object_got_additional_columns_or_keys")
+        return None
+
+    def _session_dp(self, case):
+        dp, _dc, _pc, _const = _imports()
+        row = case["row"]
+        rows = row["rows"]
+
+        def mk():
+            return (pd.DataFrame({"S_a": [r[0] for r in rows], "S_m": [r[1] for r in rows], "epsilon_a": [r[2] for r in rows]}),
+                    pd.Series({"MatGroupFKM": row["group"], "R_m": row["Rm"], "E": row["E"]}))
+        tag, want = in_child(lambda: fingerprint(dp.P_RAM(*mk()).collective))
+        if tag != "ok":
+            raise RuntimeError("reference P_RAM: " + want)
+        coll, ap = mk()
+        fc, fa = snap(coll), snap(ap)
+        for t in range(case["times"]):
+            got = fingerprint(dp.P_RAM(coll, ap).collective)
+            if got != want:
+                return (f"P_RAM(collective, parameters) called the {t + 1}. time on the same objects differs from a fresh call", "session-stale-state")
+            extra = []
+            ch = changed(fc, coll, extra) or changed(fa, ap, extra)
+            if ch:
+                return (f"P_RAM(collective, parameters), call {t + 1}: the caller's collective or parameter Series was modified: {ch}",
+                        "session-argument-modified")
+            if extra:
+                self._count("session_caller_object_got_additional_columns_or_keys")
         return None
 
     def _oracle_consts(self, case):
